@@ -190,7 +190,17 @@ func checkWritePrimitives(c *Ctx, r *Report) {
 	}
 	// WriteAndReturn
 	{
-		ws, rs := staticCallsTo(war, w), staticCallsTo(war, wr)
+		// a return write is WriteReturn() or its body spelled out: Write(c.ReturnChar, false)
+		rs := staticCallsTo(war, wr)
+		var ws []ssa.CallInstruction
+		for _, ci := range staticCallsTo(war, w) {
+			red, isC := constBool(ci.Common().Args[2])
+			if isFieldLoadNamed(ci.Common().Args[1], "ReturnChar") && isC && !red {
+				rs = append(rs, ci)
+			} else {
+				ws = append(ws, ci)
+			}
+		}
 		ok := len(ws) == 1 && len(rs) == 1
 		msg := "WriteAndReturn is not one Write followed by one WriteReturn"
 		if ok {
